@@ -22,7 +22,7 @@ T = {
          "Lean 4 theorem (invariant by induction over operations) + exact-mirror correspondence of store snapshots + brute-force oracle"),
  "C10": ("Full: every clause of C10 is a Lean theorem about the model of range.rs for every linear order V (pointwise set laws, canonical results, is_disjoint/subset_of agreement; == iff same points over dense unbounded orders). Tie: exhaustive small-scope equality of every operation.", TB_PURE,
          "Lean 4 theorems (fun_induction over the sweeps) + exhaustive small-scope model/implementation equality"),
- "C11": ("Full: Term operations coincide with evaluation on every choice, for every lawful version set (Lean theorems); the old F2 row is proved wrong (C11_F2_witness). Tie: all 65536 pairs of terms over 3 bound values through the cfg-guarded wrappers.", TB_PURE,
+ "C11": ("Full: Term operations coincide with evaluation on every choice, for every lawful version set (Lean theorems); the old F2 row is proved wrong (C11_F2_witness); for Range over ANY linear order (discrete u32 included) the same laws with evaluation over the points of the dense completion (C11_range_*). Tie: all 65536 pairs of terms over 3 bound values through the cfg-guarded wrappers.", TB_PURE,
          "Lean 4 theorems by case analysis + exhaustive small-scope model/implementation equality"),
  "C12": ("Full: get_dependencies only after the matching choose_version and at most once, should_cancel first and between choose_version calls, the first query (arbitrary answer sequences), 'choose_version's set is the set last passed to prioritize' and 'that set is non-empty' are Lean theorems. Non-emptiness comes from the invariant that no accumulated term of a live state is empty (NonEmpty.lean): for lawful version sets with canonical emptiness the set has a member (C12_choose_nonempty); for Range over ANY linear order, incl. the discrete u32 / SemanticVersion where a canonical set such as 1<v<2 has no member, the set is not Ranges::empty() (C12_range_choose_nonempty, pulled back along the embedding into a dense order) and is canonical (C12_range_requests_wf).", TB_SOLVER,
          "Lean 4 theorems (phase/request coherence invariant over the coroutine) + trace automaton on recorded runs + exact-mirror correspondence"),
